@@ -87,6 +87,13 @@ pub const TARGETS: &[FnTarget] = &[
     FnTarget { file: "compiler.rs", owner: Some("Parser"), name: "dotdot", lean: "parse_dotdot", havoc: &[], ignore_cfg_features: &[] },
     FnTarget { file: "compiler.rs", owner: Some("Parser"), name: "block", lean: "parse_block", havoc: &[], ignore_cfg_features: &[] },
     FnTarget { file: "compiler.rs", owner: Some("Parser"), name: "begin_scope", lean: "begin_scope", havoc: &[], ignore_cfg_features: &[] },
+    FnTarget { file: "stack.rs", owner: Some("Stack"), name: "len", lean: "stack_len", havoc: &[], ignore_cfg_features: &[] },
+    FnTarget { file: "stack.rs", owner: Some("Stack"), name: "peek", lean: "stack_peek", havoc: &[], ignore_cfg_features: &[] },
+    FnTarget { file: "stack.rs", owner: Some("Stack"), name: "peek_mut", lean: "stack_peek_mut", havoc: &[], ignore_cfg_features: &[] },
+    FnTarget { file: "stack.rs", owner: Some("Stack"), name: "push", lean: "stack_push", havoc: &[], ignore_cfg_features: &[] },
+    FnTarget { file: "stack.rs", owner: Some("Stack"), name: "pop", lean: "stack_pop", havoc: &[], ignore_cfg_features: &[] },
+    FnTarget { file: "stack.rs", owner: Some("Stack"), name: "truncate", lean: "stack_truncate", havoc: &[], ignore_cfg_features: &[] },
+    FnTarget { file: "stack.rs", owner: Some("Stack"), name: "clear", lean: "stack_clear", havoc: &[], ignore_cfg_features: &[] },
 ];
 
 /// the methods of `Heap` translated over the heap of boxes
@@ -304,6 +311,16 @@ fn translate_one(srcs: &[Src], db: &TypeDb, consts: &BTreeMap<String, i128>, t: 
         // pre-pass: places written anywhere in the body (direct `self.…` targets)
         let scan = scan_block(block);
         for tgt in &scan.assigned {
+            if cx.stack_mode() {
+                if let Expr::Unary(u) = tgt {
+                    if matches!(u.op, UnOp::Deref(_)) {
+                        if !cx.written.contains(&"self.stack".to_string()) {
+                            cx.written.push("self.stack".to_string());
+                        }
+                        continue;
+                    }
+                }
+            }
             let base = match tgt {
                 Expr::Index(ix) => &*ix.expr,
                 other => match rec_elem_target(other) {
